@@ -225,9 +225,15 @@ CallBuiltin(name, args, st) ==
          ELSE IF ~Sortable(Elems(st, a1)) THEN BR(Unspec, st)
          ELSE BR(AnyV, SetObj(st, a1.id, SortSeq(Elems(st, a1), LAMBDA x, y : BinOp("<", x, y).v)))
     [] name = "round" ->
+         \* round(x, n): x to n decimal places.  Decided here: non-finite values are left alone; a value
+         \* with at most n binary places has at most n decimal places, so it is its own rounding (for every
+         \* precision the builtin accepts, however large x * 10^n gets); n = 0 rounds half away from zero.
          IF n # 2 \/ a1.k # "float" \/ a2.k # "int" THEN bad
-         ELSE IF a2.v # Zero \/ a1.c = "oom" THEN BR(IF a1.c = "dy" /\ a1.e = 0 /\ IsSmall(a2.v) /\ ToInt(a2.v) >= 0 /\ ToInt(a2.v) <= 6
-                                                   THEN a1 ELSE Unspec, st)
-         ELSE BR(RoundHalfAway(a1), st)
+         ELSE IF ~IsSmall(a2.v) \/ ToInt(a2.v) < 0 \/ ToInt(a2.v) > 18 THEN BR(Unspec, st)
+         ELSE IF a1.c \in {"nan", "pinf", "ninf"} THEN BR(a1, st)
+         ELSE IF a1.c # "dy" THEN BR(Unspec, st)
+         ELSE IF a1.e <= ToInt(a2.v) THEN BR(a1, st)
+         ELSE IF a2.v = Zero THEN BR(RoundHalfAway(a1), st)
+         ELSE BR(Unspec, st)
     [] OTHER -> BR(Unspec, st)
 =============================================================================
